@@ -203,6 +203,8 @@ val o_neg : 'a1 ops -> 'a1 -> 'a1
 
 val o_add : 'a1 ops -> 'a1 -> 'a1 -> 'a1
 
+val o_sub : 'a1 ops -> 'a1 -> 'a1 -> 'a1
+
 val o_mul : 'a1 ops -> 'a1 -> 'a1 -> 'a1
 
 val o_div : 'a1 ops -> 'a1 -> 'a1 -> 'a1
@@ -555,3 +557,45 @@ val count_occ_nat : nat list -> nat -> nat
 val rc_spec : 'a1 arena -> nat list -> nat list -> nat -> nat
 
 val live_count : 'a1 arena -> nat list -> nat list -> nat
+
+type 'num dvec = ('num * 'num) * 'num
+
+val d3 : ('a1 -> 'a1) -> 'a1 dvec -> 'a1 dvec
+
+val d3_2 : ('a1 -> 'a1 -> 'a1) -> 'a1 dvec -> 'a1 dvec -> 'a1 dvec
+
+val dzero : 'a1 ops -> 'a1 dvec
+
+val dscale : 'a1 ops -> 'a1 dvec -> 'a1 -> 'a1 dvec
+
+val ddivs : 'a1 ops -> 'a1 dvec -> 'a1 -> 'a1 dvec
+
+val two : 'a1 ops -> 'a1
+
+val sq : 'a1 ops -> 'a1 -> 'a1
+
+val dkern :
+  'a1 ops -> bool -> opcode -> 'a1 -> 'a1 -> 'a1 -> 'a1 dvec -> 'a1 dvec ->
+  'a1 dvec
+
+type 'num dslots = 'num dvec list
+
+val dget : 'a1 ops -> 'a1 dslots -> nat -> 'a1 dvec
+
+val dset : 'a1 dslots -> nat -> 'a1 dvec -> 'a1 dslots
+
+val dclause :
+  'a1 ops -> bool -> 'a1 slots -> 'a1 dslots -> clause -> 'a1 dslots
+
+val deriv_tape :
+  'a1 ops -> bool -> clause list -> 'a1 slots -> 'a1 dslots -> 'a1 dslots
+
+val seeds_xyz : 'a1 ops -> 'a1 deck -> 'a1 dslots
+
+val deriv_at :
+  'a1 ops -> (nat -> 'a1 -> 'a1 -> 'a1 -> 'a1) -> 'a1 deck -> (nat -> 'a1) ->
+  'a1 -> 'a1 -> 'a1 -> 'a1 * 'a1 dvec
+
+val var_partial :
+  'a1 ops -> (nat -> 'a1 -> 'a1 -> 'a1 -> 'a1) -> 'a1 deck -> (nat -> 'a1) ->
+  'a1 -> 'a1 -> 'a1 -> nat -> 'a1
